@@ -493,7 +493,7 @@ fn main() {
     ctx.set_rule(
         "cases = (point set, float type, metric, leaf size); point sets: all multisets of <=5 / <=6 points of {0..4} (1-D, duplicates), \
          all subsets of <=5 (quick) / <=7 (thorough) points of the 3x3 lattice, their generic-position images (constant jitter table), all subsets of <=4 / <=6 corners of the unit cube, \
-         a dimension sweep d in {1,2,3,8,16} over all multisets of <=4 of 5 pool vectors, plus empty / single / all-equal sets; \
+         a dimension sweep d in {1,2,3,4,5,6,7,8,9,16,17} over all multisets of <=4 of 5 pool vectors, plus empty / single / all-equal sets; \
          deep trees: the 4x4 lattice minus every set of <=1 / <=2 points, the 5x5 lattice with a duplicated row, 34 / 70 1-D points with duplicates, the 3x3x3 lattice, \
          each with leaf sizes {default via from_batch, 1, 4, 16} (thorough: + 2, 3, 5, n; quick: metrics L1 / L2 / Linf only) and every half-lattice query of the bounding box; \
          per case: every lattice and half-lattice query + one far query, k = 0..n+2 (deep sets with n > 12: k in {0,1,2,3,5,8,n/2,n-1,n,n+1,n+2}), radii = 0, every distinct query-point distance exactly, \
@@ -529,7 +529,8 @@ fn main() {
         sets.push(("cube2x2x2".into(), p, 3));
     }
     // D: dimension sweep
-    for &d in &[1usize, 2, 3, 8, 16] {
+    // incl. dimensions that are not multiples of 4 (chunked / unrolled distance kernels have a remainder loop)
+    for &d in &[1usize, 2, 3, 4, 5, 6, 7, 8, 9, 16, 17] {
         let pool: Vec<Vec<f64>> = vec![
             vec![0.0; d],
             (0..d).map(|j| if j == 0 { 1.0 } else { 0.0 }).collect(),
@@ -566,7 +567,7 @@ fn main() {
     // L1 / Linf / squared L2 are exact) in 2-D and 3-D, in three input orders (as generated, sorted by the first
     // coordinate, sorted by distance from the centroid - far points last); symmetric lattices hide errors that
     // depend on which points a node summarises
-    for &(d, n) in ctx.pick(&[(2usize, 40usize), (3, 40)][..], &[(2, 40), (3, 40), (2, 100), (3, 100), (8, 60)][..]) {
+    for &(d, n) in ctx.pick(&[(2usize, 40usize), (3, 40), (5, 30)][..], &[(2, 40), (3, 40), (5, 30), (7, 40), (2, 100), (3, 100), (8, 60), (9, 60)][..]) {
         let mut st: u64 = 0x9E37_79B9 + d as u64 * 1000 + n as u64;
         let mut next = || {
             st = st.wrapping_mul(6364136223846793005).wrapping_add(1442695040888963407);
